@@ -24,6 +24,7 @@
    Two-peer inter-Sync-Gateway replication is the instance peers {1, 2}, pulls = GXfer 2 1 (Some f), pushes =
    GXfer 1 2 None; the chain A <-> B <-> C is peers {1, 2, 3} with B = 2 passive towards both. *)
 From SG Require Import Base.Prelude C10.AMap C10.HLV C06.VV C06.VVF.
+From SG Require Export C06.Switches.
 Open Scope N_scope.
 
 Inductive vres := VLocal | VRemote | VMerge (b : N).
@@ -66,7 +67,9 @@ Definition glocal_write (me : N) (pr : vpeer) (d body : N) (del : bool) (phys : 
 Definition clash_merge (mb : N) (l i : vdoc) : bool := on_branch (mb :: d_rev i) l.
 
 Definition merged_doc (h : hlv) (mb : N) (l i : vdoc) : vdoc :=
-  if clash_merge mb l i then tombstoned h l else mkD h mb (d_del i) (mb :: d_rev i).
+  if clash_merge mb l i then tombstoned h l
+  else if null_merge_is_delete && (mb =? del_digest_body) then mkD h tomb_body true (mb :: d_rev i)
+  else mkD h mb (d_del i) (mb :: d_rev i).
 
 (* what no receiver accepts: a live revision with the body {"_deleted":true} *)
 Definition unsendable (i : vdoc) : bool := negb (d_del i) && (d_body i =? del_digest_body).
